@@ -26,7 +26,8 @@
 EXTENDS Rat, Naturals, FiniteSets, TLC, Json
 
 CONSTANTS Dims,       \* dimensions of the ambient hyperbolic space to request
-          MaxN        \* largest n of the generic cases
+          MaxN,       \* largest n of the generic cases
+          MaxSweep    \* the vertex-count sweep covers every n in MaxN+1..MaxSweep
 
 VARIABLE kase
 
@@ -120,12 +121,17 @@ RadiusCases == {[kind |-> "radius", n |-> n, t |-> t, dim |-> dd] : n \in ExactN
 SurfaceCases == {[kind |-> "surface", genus |-> gg, n |-> 4 * gg, a |-> <<1, 2 * gg>>, dim |-> 2] : gg \in {2, 3}}
 GenericCases == {[kind |-> "generic", n |-> n, a |-> <<j, 12>>, dim |-> dd] : n \in 3..MaxN, j \in 1..11, dd \in Dims}
 
+\* vertex-count sweep: EVERY n up to MaxSweep (no n is special in the specification: a regular n-gon has n vertices),
+\* even n requested by the interior angle pi/3, odd n by the radius atanh(3/5) (cosh^2 R = 25/16)
+SweepCases == {IF n % 2 = 0 THEN [kind |-> "sweep", n |-> n, a |-> <<1, 3>>, dim |-> IF n % 3 = 0 THEN 3 ELSE 2]
+                             ELSE [kind |-> "sweep", n |-> n, t |-> <<3, 5>>, dim |-> IF n % 3 = 0 THEN 3 ELSE 2] : n \in (MaxN + 1)..MaxSweep}
 InDomain(c) == CASE c.kind = "angle" -> Compatible(c.n, c.a) /\ Admissible(c.n, c.a)
                  [] c.kind = "surface" -> Compatible(c.n, c.a) /\ Admissible(c.n, c.a)
                  [] c.kind = "radius" -> TRUE
+                 [] c.kind = "sweep" -> (c.n % 2 = 0) => Admissible(c.n, c.a)
                  [] c.kind = "generic" -> Admissible(c.n, c.a)
 
-Init == kase \in {c \in AngleCases \cup RadiusCases \cup SurfaceCases \cup GenericCases : InDomain(c)}
+Init == kase \in {c \in AngleCases \cup RadiusCases \cup SurfaceCases \cup GenericCases \cup SweepCases : InDomain(c)}
 Next == UNCHANGED kase
 
 (***************************************************************************)
@@ -189,6 +195,8 @@ CaseObs ==
              sh2 == Sinh2Of(kase.t)
          IN [kase |-> kase, r |-> r, cosa |-> QJ(CosFromRadius(r, kase.n, sh2)), coshsqR |-> QJ(QAdd(QOne, sh2)),
              coshside |-> QJ(SideFromRadius(r, kase.n, sh2))]
-    [] OTHER -> [kase |-> kase]
+    [] kase.kind = "sweep" /\ kase.n % 2 = 1 ->
+         [kase |-> kase, count |-> kase.n, r |-> 2, coshsqR |-> QJ(QAdd(QOne, Sinh2Of(kase.t)))]
+    [] OTHER -> [kase |-> kase, count |-> kase.n]
 EmitCase == PrintT("CASE " \o ToJson(CaseObs))
 =============================================================================
